@@ -164,6 +164,11 @@ def small_value_class(prog, body, rv, _depth=0):
     # a local assigned on several paths (`x = if c { a } else { b }`): the union of what each assignment can store
     if op["k"] in ("copy", "move") and not op["place"]["p"] and _depth < 3:
         ds = [d for d in body.defs.get(op["place"]["l"], []) if d[0] in ("assign", "call")]
+        if len(ds) == 1 and ds[0][0] == "assign" and ds[0][3]["k"] == "assign" and ds[0][3]["rv"]["k"] in ("use", "cast") \
+                and ds[0][3]["rv"]["op"]["k"] in ("copy", "move") and not ds[0][3]["rv"]["op"]["place"]["p"]:
+            inner = small_value_class(prog, body, ds[0][3]["rv"], _depth + 1)
+            if not any(isinstance(v, str) and (v == "tmp" or v.startswith("var:")) for v in inner):
+                return inner
         if len(ds) > 1:
             out = set()
             for d in ds:
